@@ -18,9 +18,8 @@ MANIFEST = dict(
     text="partial: PROVED for all 64-bit values about the definitions GENERATED from the current C text — is_valid_ptr, fits_in_pe/struct_fits_in_pe, fits_in_dex, "
          "exec.c function_read range test, arena relocation test, Mach-O fat/command tests, ELF table and string-table tests, pe.c available_space and export-table "
          "tests, .NET string start and blob index tests imply an in-range access under allocation validity only; .NET blob length tests under 'buffer not within 4 GiB "
-         "of the top of the address space'; pe_rva_to_offset result < data_size; capped loops run <= cap times. Two pe.c tests are sound only with a "
-         "caller-established hypothesis and Lean gives the counter-example otherwise (F60 Rich-header offset, F61 32-bit sum in the security directory; neither is "
-         "reachable as a memory error today). SAMPLED ONLY: that every dereference in the parsers is guarded, absence of leaks/uninitialised reads, termination "
+         "of the top of the address space'; pe_rva_to_offset result < data_size; capped loops run <= cap times. The two pe.c tests that were unsound in 4.5.2 (F60 Rich-header offset, F61 32-bit sum in "
+         "the security directory) are fixed in /repo and proved at full strength on the regenerated text (pe_rich_nthdr_sound, pe_security_dir_sound). SAMPLED ONLY: that every dereference in the parsers is guarded, absence of leaks/uninitialised reads, termination "
          "of whole scans — exhibited by sanitizer runs on seeded structure-aware mutations of the sample files.",
     design_ref="DESIGN.md §1.3, §4 D12, §5 C06",
     note=core.TB + "Predicates are tied to the code twice (regenerated from text on every run; compiled code compared on tuples, strictly only where the C "
